@@ -93,6 +93,45 @@ def registrations(res, wd, delays, m):
         s.stop()
 
 
+def outstanding(res, wd, K):
+    """K conversions that are never confirmed pile up; conversions issued in between, and the very first one, are still confirmable"""
+    s = start(wd)
+    try:
+        c = Server_client(s)
+        first, acked = None, 0
+        marks = {k for k in (1, 2, 127, 128, 129, 255, 256, 257, 1023, 1024, 1025, K) if k <= K}
+        for k in range(1, K + 1):
+            st, r = c.call("GetCandidates", {"input": "くるま"}, timeout=10)
+            if st != "ok" or not r["candidates"]:
+                res.violation(f"conversion {k} is not answered with {k - 1} sessions outstanding", {"kind": "outstanding", "k": k})
+                return 0
+            if first is None:
+                first = r["session_id"]
+            if k in marks:
+                st, r2 = c.call("GetCandidates", {"input": "くるま"}, timeout=10)
+                st2, _ = c.call("UpdateFrequency", {"session_id": r2["session_id"], "candidate_id": "0"}, timeout=10)
+                if st2 != "ok":
+                    res.violation("confirmation not answered", {"kind": "outstanding", "k": k})
+                    return 0
+                acked += 1
+                st3, d = s.dump()
+                got = sum(f[2] for f in d["frequencies"]) if st3 == "ok" else None
+                if got != acked:
+                    res.violation(f"with {k} conversions outstanding, a conversion was confirmed right after its response and the learned counts add up to {got} instead of {acked}",
+                                  {"kind": "lost_confirmation_outstanding", "outstanding": k})
+                    return acked
+        st2, _ = c.call("UpdateFrequency", {"session_id": first, "candidate_id": "0"}, timeout=10)
+        acked += 1
+        st3, d = s.dump()
+        got = sum(f[2] for f in d["frequencies"]) if st3 == "ok" else None
+        if got != acked:
+            res.violation(f"the first of {K} outstanding conversions was confirmed at the end and the learned counts add up to {got} instead of {acked}",
+                          {"kind": "lost_confirmation_outstanding", "outstanding": K, "which": "first"})
+        return acked
+    finally:
+        s.stop()
+
+
 def run(tier, seed):
     res = Result(PROP, tier, seed)
     rnd = random.Random(seed)
@@ -115,6 +154,7 @@ def run(tier, seed):
         for dl, c, n, tag in plans:
             total += scenario(res, wd, dl, c, n, tag)
             scen.append({"delays": dl, "clients": c, "pairs": n, "what": tag})
+        total += outstanding(res, wd, 1100 if tier == "quick" else 5000)
         regs = registrations(res, wd, {"updater.before_dict_lock": 5, "updater.before_pref_lock": 2}, 40 if tier == "quick" else 200)
     finally:
         cleanup(wd)
